@@ -10,14 +10,34 @@
                  (the clause "a registered name has a creator" is dropped).
    New: reuse_cgood (CompileList re-registering the kept Lambda, repo_fixes/C08-6), fmakM_step (fmakunbound keeps
    the invariant and removes the definition), step_sim for all four operations.  The statements after the module
-   are about the same runS, runM, osim as Proofs.history_refines. *)
+   are about the same runS, runM, osim as Proofs.history_refines.
+   The invariant has a flag (Section variable `orph`): orph = true allows compiled calls of a name without a creator
+   (every history: history_refines_fmak); orph = false excludes them, which fmakunbound preserves when no slot holds
+   a compiled call of the name (`nomark`); over that invariant Section Late repeats the exactness development of
+   ProofsLate.v (evalM_ex .. history_exact) with `fmak_clean` in place of `no_fmak` (history_exact_fmak).  The
+   witnesses at the end show that exactness against the per-name oracle fails beyond that. *)
 From Coq Require Import List ZArith String Bool Arith Lia Permutation.
 From C08 Require Import Model Spec.
 From C08 Require Proofs ProofsLate.
 Import ListNotations.
 Open Scope list_scope.
 
+(* no compiled call of `name` in the slots *)
+Definition nomark (name : string) (mk : list (nat * callee)) : bool :=
+  forallb (fun ic => match snd ic with CD g _ => negb (String.eqb g name) | CB _ => true end) mk.
+(* a history along M's run: every (fmakunbound 'name) happens while no slot holds a compiled call of name *)
+Fixpoint fmak_clean (n : nat) (m : mstate) (ops : list op) : bool :=
+  match ops with
+  | [] => true
+  | o :: r => (match o with OFmak nm => nomark nm (marks (ms m)) | _ => true end) && fmak_clean n (fst (stepM n m o)) r
+  end.
+
 Module FM.
+Section Flag.
+(* orph = true: compiled calls of a name without a creator may exist (the general invariant, for the refinement);
+   orph = false: they do not (the invariant of the histories in which no name is fmakunbound while a compiled call of
+   it exists, for the exactness against the per-name lookup-time oracle) *)
+Variable orph : bool.
 (* ---- small facts ---------------------------------------------------------------------------- *)
 Lemma bi_eqb_eq : forall a b, bi_eqb a b = true -> a = b.
 Proof. destruct a, b; simpl; congruence. Qed.
@@ -48,7 +68,7 @@ Record Inv (st : state) : Prop := mkInv {
       (exists s l, slookup g (funcs st) = Some s /\ hget st a = Some l /\ hget st s = Some l /\
                   (slookup g (lambdas st) = Some s -> a = s)) \/
       (* after fmakunbound: no creator; the compiled call holds the registered Lambda, now a placeholder *)
-      (slookup g (funcs st) = None /\ slookup g (lambdas st) = Some a /\ exists l, hget st a = Some l /\ l_place l = true);
+      (orph = true /\ slookup g (funcs st) = None /\ slookup g (lambdas st) = Some a /\ exists l, hget st a = Some l /\ l_place l = true);
   inv_lams : forall f c, slookup f (lambdas st) = Some c ->
       exists l, hget st c = Some l /\ l_name l = f /\ (slookup f (funcs st) = None -> l_place l = true);
   (* the Lambda a name's creator hands out IS the registered one (repo_fixes/C08-3); with inv_marks: every
@@ -500,7 +520,7 @@ Lemma wrapper_user : forall st id f, Inv st -> builtin_of f = None ->
   | WUndef => slookup f (funcs st) = None
   | WOk (CB _) => False
   | WOk (CD g a) => (exists s l, slookup f (funcs st) = Some s /\ hget st a = Some l /\ hget st s = Some l) \/
-                    (slookup f (funcs st) = None /\ exists l, hget st a = Some l /\ l_place l = true)
+                    (orph = true /\ slookup f (funcs st) = None /\ exists l, hget st a = Some l /\ l_place l = true)
   end.
 Proof.
   intros st id f I B. unfold wrapper, mark_of.
@@ -508,7 +528,7 @@ Proof.
                | WUndef => slookup f (funcs st) = None
                | WOk (CB _) => False
                | WOk (CD g a) => (exists s l, slookup f (funcs st) = Some s /\ hget st a = Some l /\ hget st s = Some l) \/
-                    (slookup f (funcs st) = None /\ exists l, hget st a = Some l /\ l_place l = true)
+                    (orph = true /\ slookup f (funcs st) = None /\ exists l, hget st a = Some l /\ l_place l = true)
                end).
   { unfold resolve. rewrite B. destruct (slookup f (funcs st)) as [s|] eqn:F; auto.
     destruct (inv_funcs _ I _ _ F) as (c & l & ? & ? & ? & ?). left. eauto. }
@@ -516,7 +536,7 @@ Proof.
   destruct c as [b|g a]; simpl; rewrite B; [exact RS|].
   destruct (String.eqb g f) eqn:Q; simpl; [|exact RS].
   apply String.eqb_eq in Q. subst g.
-  destruct (inv_marks _ I _ _ _ N) as [(s & l & ? & ? & ? & ?)|(? & ? & l & ? & ?)]; [left|right]; eauto.
+  destruct (inv_marks _ I _ _ _ N) as [(s & l & ? & ? & ? & ?)|(? & ? & ? & l & ? & ?)]; [left|right]; eauto.
 Qed.
 
 Theorem evalM_sim : forall ft n, simP n ft.
@@ -557,7 +577,7 @@ Proof.
            destruct (hget st s) as [l|] eqn:H; [|discriminate].
            destruct (l_place l) eqn:PL; [discriminate|]. inversion D; subst ps forms clos.
            destruct (wrapper st id f) as [[b|g a]|]; [contradiction| |discriminate].
-           destruct W as [(s' & l' & F' & Ha & Hs)|[F' _]]; [|congruence]. inversion F'; subst s'.
+           destruct W as [(s' & l' & F' & Ha & Hs)|(_ & F' & _)]; [|congruence]. inversion F'; subst s'.
            rewrite H in Hs. inversion Hs; subst l'.
            destruct (eval_argsS (evalS n ft) en (out st) args) as [aS o1] eqn:EA.
            destruct (eval_args_sim n ft IH args st en aS o1 I R EA) as (aM & st1 & EM & A). rewrite EM.
@@ -588,7 +608,7 @@ Proof.
                | WUndef => (Err EUndefined, st) end) = (rM, st') /\ is_val rM = false).
            { destruct (wrapper st id f) as [[b|g a]|]; [contradiction| |eauto].
              assert (W' : exists l, hget st a = Some l /\ l_place l = true).
-             { destruct W as [(s & l & F & Ha & Hs)|[_ W]]; [|exact W].
+             { destruct W as [(s & l & F & Ha & Hs)|(_ & _ & W)]; [|exact W].
                pose proof (R f) as D. rewrite FT in D. unfold def_of in D. rewrite F, Hs in D.
                destruct (l_place l) eqn:PL; [eauto|discriminate]. }
              destruct W' as (l & Ha & PL).
@@ -672,7 +692,7 @@ Proof.
         exists a, pl. auto.
       * intros E. destruct (inv_funcs _ I _ _ E) as (c & l & ? & ? & ? & ?).
         exists c, l. repeat split; auto; apply HO; auto.
-    + intros id g a' N. destruct (inv_marks _ I _ _ _ N) as [(s & l & Fg & Ha & Hs & K)|(Fg & Lg & l & Ha & PL)].
+    + intros id g a' N. destruct (inv_marks _ I _ _ _ N) as [(s & l & Fg & Ha & Hs & K)|(OR & Fg & Lg & l & Ha & PL)].
       * assert (Q : String.eqb g f = false).
         { destruct (String.eqb g f) eqn:Q; auto. apply String.eqb_eq in Q. subst g. congruence. }
         rewrite Q. left. exists s, l. repeat split; auto; apply HO; auto.
@@ -708,7 +728,7 @@ Proof.
       * apply (inv_funcs _ I).
     + intros id g a' N. destruct (String.eqb g f) eqn:Q.
       * apply String.eqb_eq in Q. subst g.
-        destruct (inv_marks _ I _ _ _ N) as [(s & l & Fg & _)|(Fg & Lg & l & Ha & PL)]; [congruence|].
+        destruct (inv_marks _ I _ _ _ N) as [(s & l & Fg & _)|(OR & Fg & Lg & l & Ha & PL)]; [congruence|].
         assert (a' = c0) by congruence. subst a'. left. exists c0, pl. auto.
       * apply (inv_marks _ I _ _ _ N).
     + intros f' c E. destruct (inv_lams _ I _ _ E) as (l & ? & ? & PL). exists l. repeat split; auto.
@@ -788,7 +808,7 @@ Proof.
   - destruct I as [i1 i2 i3 i4]. constructor; unfold hget; simpl; auto.
     + intros f s E. destruct (i1 _ _ E) as (c & l0 & ? & ? & ? & ?). exists c, l0.
       repeat split; auto; apply nth_error_app_old; auto.
-    + intros id g a' N. destruct (i2 _ _ _ N) as [(s & l0 & ? & ? & ? & ?)|(? & ? & l0 & ? & ?)].
+    + intros id g a' N. destruct (i2 _ _ _ N) as [(s & l0 & ? & ? & ? & ?)|(? & ? & ? & l0 & ? & ?)].
       * left. exists s, l0. repeat split; auto; apply nth_error_app_old; auto.
       * right. repeat split; auto. exists l0. split; auto. apply nth_error_app_old; auto.
     + intros f c E. destruct (i3 _ _ E) as (l0 & ? & ? & ?). exists l0. repeat split; auto.
@@ -844,10 +864,10 @@ Proof.
       * intros id g a' N. destruct (String.eqb g name) eqn:Q.
         -- apply String.eqb_eq in Q. subst g.
            assert (a' = c).
-           { destruct (inv_marks _ I2 _ _ _ N) as [(s' & l & F' & Ha' & Hs' & K)|(F' & L' & _)]; [|congruence].
+           { destruct (inv_marks _ I2 _ _ _ N) as [(s' & l & F' & Ha' & Hs' & K)|(_ & F' & L' & _)]; [|congruence].
              pose proof (inv_canon _ I2 _ _ F') as X. rewrite LN in X. inversion X; subst s'. apply K; exact LN. }
            subst a'. left. exists c, newl. repeat split; auto.
-        -- destruct (inv_marks _ I2 _ _ _ N) as [(s' & l & F' & Ha' & Hs' & K)|(F' & L' & l & Ha' & PL')].
+        -- destruct (inv_marks _ I2 _ _ _ N) as [(s' & l & F' & Ha' & Hs' & K)|(OR & F' & L' & l & Ha' & PL')].
            ++ destruct (inv_funcs _ I2 _ _ F') as (c' & l' & _ & Hs2 & _ & NM).
               rewrite Hs' in Hs2. inversion Hs2; subst l'.
               assert (l_name l <> name) by (intros X; rewrite X in NM; subst g; rewrite String.eqb_refl in Q; discriminate).
@@ -883,7 +903,7 @@ Proof.
         -- apply (inv_funcs _ I2).
       * intros id g a' N. destruct (String.eqb g name) eqn:Q; [|apply (inv_marks _ I2 _ _ _ N)].
         apply String.eqb_eq in Q. subst g.
-        destruct (inv_marks _ I2 _ _ _ N) as [(s & l & F' & _)|(_ & L' & _)]; congruence.
+        destruct (inv_marks _ I2 _ _ _ N) as [(s & l & F' & _)|(_ & _ & L' & _)]; congruence.
       * intros f c. destruct (String.eqb f name) eqn:Q.
         -- apply String.eqb_eq in Q. subst f. intros E; inversion E; subst c. exists newl. repeat split; auto. discriminate.
         -- apply (inv_lams _ I2).
@@ -1033,10 +1053,17 @@ Lemma neq_eqb : forall f g, String.eqb f g = false -> f <> g.
 Proof. intros f g Q ->. rewrite String.eqb_refl in Q. discriminate. Qed.
 (* fmakunbound keeps the invariant and removes exactly the definition of the name: the creator is gone, the
    registered Lambda stays registered as a placeholder, the compiled calls of the name keep holding it *)
-Theorem fmakM_step : forall st ft name, Inv st -> Rel st ft ->
+Lemma nomark_spec : forall name mk id g a, nomark name mk = true -> nlookup id mk = Some (CD g a) -> g <> name.
+Proof.
+  intros name. induction mk as [|[i c] r IH]; simpl; intros id g a H N; [discriminate|].
+  apply andb_true_iff in H. destruct H as [H1 H2]. destruct (Nat.eqb id i).
+  - inversion N; subst c. simpl in H1. intros ->. rewrite String.eqb_refl in H1. discriminate.
+  - eapply IH; eauto.
+Qed.
+Theorem fmakM_step : forall st ft name, orph = true \/ nomark name (marks st) = true -> Inv st -> Rel st ft ->
   Inv (fmakM st name) /\ Rel (fmakM st name) (sremove name ft) /\ out (fmakM st name) = out st.
 Proof.
-  intros st ft name I R. unfold fmakM. destruct (slookup name (funcs st)) as [s|] eqn:FS.
+  intros st ft name OK I R. unfold fmakM. destruct (slookup name (funcs st)) as [s|] eqn:FS.
   - pose proof (inv_canon _ I _ _ FS) as LS. rewrite LS.
     destruct (inv_funcs _ I _ _ FS) as (c0 & l0 & L0 & Hs & _ & N0).
     set (pl := mkLam name [] [] true []). set (hp := set_nth (heap st) s pl).
@@ -1050,12 +1077,14 @@ Proof.
         exists c, l. repeat split; auto; apply HO; auto; congruence.
       * intros id g a N. rewrite slookup_sremove. destruct (String.eqb g name) eqn:Q.
         -- apply String.eqb_eq in Q. subst g. right.
+           assert (OR : orph = true).
+           { destruct OK as [OK|OK]; [exact OK|]. exfalso. apply (nomark_spec _ _ _ _ _ OK N). reflexivity. }
            assert (a = s).
-           { destruct (inv_marks _ I _ _ _ N) as [(s' & l & F' & _ & _ & K)|(F' & _)]; [|congruence].
+           { destruct (inv_marks _ I _ _ _ N) as [(s' & l & F' & _ & _ & K)|(_ & F' & _)]; [|congruence].
              assert (s' = s) by congruence. subst s'. apply K; exact LS. }
            subst a. repeat split; auto. exists pl. auto.
         -- apply neq_eqb in Q.
-           destruct (inv_marks _ I _ _ _ N) as [(s' & l & F' & Ha & Hs' & K)|(F' & L' & l & Ha & PL)].
+           destruct (inv_marks _ I _ _ _ N) as [(s' & l & F' & Ha & Hs' & K)|(OR & F' & L' & l & Ha & PL)].
            ++ destruct (inv_funcs _ I _ _ F') as (c' & l' & _ & Hs2 & _ & NM).
               rewrite Hs' in Hs2. inversion Hs2; subst l'.
               left. exists s', l. repeat split; auto; apply HO; auto; congruence.
@@ -1077,7 +1106,9 @@ Proof.
     apply String.eqb_eq in Q. subst f. unfold def_of. rewrite FS. reflexivity.
 Qed.
 
-Lemma step_sim : forall n m s o, HInv m s ->
+Definition fmak_ok (m : mstate) (o : op) : Prop :=
+  match o with OFmak nm => orph = true \/ nomark nm (marks (ms m)) = true | _ => True end.
+Lemma step_sim : forall n m s o, HInv m s -> fmak_ok m o ->
   HInv (fst (stepM n m o)) (fst (stepS n s o)) /\
   match snd (stepS n s o), snd (stepM n m o) with
   | Some a, Some b => osim a b
@@ -1085,8 +1116,8 @@ Lemma step_sim : forall n m s o, HInv m s ->
   | _, _ => False
   end.
 Proof.
-  intros n m s o (I & R & CE & GE). destruct o as [cid forms|cid|cid|fk]; simpl in *;
-    [| | |destruct (fmakM_step (ms m) (sft s) fk I R) as (I' & R' & _); split; [unfold HInv; simpl; auto|exact Logic.I]].
+  intros n m s o (I & R & CE & GE) OK. destruct o as [cid forms|cid|cid|fk]; simpl in *;
+    [| | |destruct (fmakM_step (ms m) (sft s) fk OK I R) as (I' & R' & _); split; [unfold HInv; simpl; auto|exact Logic.I]].
   - split; auto. unfold HInv; simpl. split; [auto|split; [auto|split; [congruence|auto]]].
   - rewrite <- CE, <- GE. destruct (nlookup cid (codes m)) as [fs|]; [|split; [unfold HInv; auto|simpl; auto]].
     pose proof (good_set_out (ms m) []) as [T0 I0].
@@ -1116,25 +1147,557 @@ Proof.
 Qed.
 
 (* EVERY history, fmakunbound included, refines S outcome by outcome *)
-Theorem history_refines_from : forall n ops m s, HInv m s ->
+Theorem history_refines_from : orph = true -> forall n ops m s, HInv m s ->
   Forall2 osim (runS n s ops) (runM n m ops).
 Proof.
-  intros n. induction ops as [|o r IH]; simpl; intros m s H; [constructor|].
-  destruct (step_sim n m s o H) as [H' OB].
+  intros OR n. induction ops as [|o r IH]; simpl; intros m s H; [constructor|].
+  assert (OK : fmak_ok m o) by (destruct o; simpl; auto).
+  destruct (step_sim n m s o H OK) as [H' OB].
   destruct (stepM n m o) as [m' obM]. destruct (stepS n s o) as [s' obS]. simpl in *.
   specialize (IH m' s' H').
   destruct obS as [a|], obM as [b|]; try contradiction; simpl; auto.
 Qed.
 Lemma HInv_init : HInv minit sinit.
 Proof. split; [apply Inv_init|]. split; [intros f; reflexivity|split; reflexivity]. Qed.
-Theorem history_refines : forall n ops, Forall2 osim (runS n sinit ops) (runM n minit ops).
+Theorem history_refines : orph = true -> forall n ops, Forall2 osim (runS n sinit ops) (runM n minit ops).
 Proof. intros. apply history_refines_from; auto. apply HInv_init. Qed.
 
-(* ---- consequences in property terms ---------------------------------------------------------------- *)
+(* ---- exactness against the lookup-time evaluator (ProofsLate.v repeated over Inv with orph = false) ------------ *)
+Section Late.
+Hypothesis NO : orph = false.
+(* ---- M computes evalL exactly -------------------------------------------------------------------------- *)
+(* the policy of a model state is `latef` (Spec.v) *)
+Definition Pol (st : state) (late : policy) : Prop := forall f, late f = latef st f.
+Lemma Pol_latef : forall st, Pol st (latef st).
+Proof. intros st f. reflexivity. Qed.
+Lemma same_tabs_pol : forall st st' late, same_tabs st st' -> Pol st late -> Pol st' late.
+Proof. intros st st' late [_ [_ F]] P f. rewrite (P f). unfold latef. rewrite F. reflexivity. Qed.
+
+Definition ex1 (rS : res) (oS : list value) (rM : res) (stM : state) : Prop :=
+  (binding rS = true -> rM = rS /\ out stM = oS) /\ (is_val rS = false -> is_val rM = false).
+Definition exA (aS : ares) (oS : list value) (aM : ares) (stM : state) : Prop :=
+  match aS with
+  | AVals vs => aM = AVals vs /\ out stM = oS
+  | AStop r => (binding r = true -> aM = AStop r /\ out stM = oS) /\ exists r', aM = AStop r' /\ is_val r' = false
+  end.
+Lemma ex1_same : forall r st, ex1 r (out st) r st.
+Proof. intros. split; auto. Qed.
+
+Section Exact.
+  Variable late : policy.
+  Variable ft : ftab.
+  Definition exP (n : nat) : Prop :=
+    forall st en e rS oS, Inv st -> Rel st ft -> Pol st late -> evalL late n ft en (out st) e = (rS, oS) ->
+      exists rM st', evalM n st en e = (rM, st') /\ ex1 rS oS rM st'.
+
+  Lemma eval_args_ex : forall n, exP n -> forall args st en aS oS, Inv st -> Rel st ft -> Pol st late ->
+    eval_argsS (evalL late n ft) en (out st) args = (aS, oS) ->
+    exists aM st', eval_args (evalM n) st en args = (aM, st') /\ exA aS oS aM st'.
+  Proof.
+    intros n IH. induction args as [|a rest IHa]; simpl; intros st en aS oS I R P E.
+    - inversion E; subst. exists (AVals []), st. split; auto. split; auto.
+    - destruct (premark st a) as [st1|] eqn:PM.
+      + pose proof (premark_good _ _ _ PM) as [T1 I1]. pose proof (premark_out _ _ _ PM) as O1.
+        rewrite <- O1 in E.
+        destruct (evalL late n ft en (out st1) a) as [r1 o1] eqn:E1.
+        destruct (IH st1 en a r1 o1 (I1 I) (same_tabs_rel _ _ _ T1 R) (same_tabs_pol _ _ _ T1 P) E1) as (rM & st2 & EM & [S1 S2]).
+        rewrite EM. pose proof (evalM_good n _ _ _ _ _ EM) as [T2 I2].
+        destruct r1 as [v|er|].
+        * destruct (S1 eq_refl) as [-> O2].
+          destruct (eval_argsS (evalL late n ft) en o1 rest) as [aS2 o2] eqn:E2. rewrite <- O2 in E2.
+          destruct (IHa st2 en aS2 o2 (I2 (I1 I)) (same_tabs_rel _ _ _ T2 (same_tabs_rel _ _ _ T1 R))
+                      (same_tabs_pol _ _ _ T2 (same_tabs_pol _ _ _ T1 P)) E2) as (aM2 & st3 & EM2 & A). rewrite EM2.
+          destruct aS2 as [vs|r2].
+          -- destruct A as [-> O3]. inversion E; subst. eexists _, _. split; [reflexivity|]. split; auto.
+          -- inversion E; subst. destruct A as [A1 (r' & -> & NV)].
+             eexists _, _. split; [reflexivity|]. split; [|eauto].
+             intros C. destruct (A1 C) as [A2 A3]. auto.
+        * inversion E; subst. pose proof (S2 eq_refl) as NV.
+          destruct rM; [discriminate| |]; (eexists _, _; split; [reflexivity|]; split; [|eauto];
+            intros C; destruct (S1 C) as [Q1 Q2]; split; congruence).
+        * inversion E; subst. pose proof (S2 eq_refl) as NV.
+          destruct rM; [discriminate| |]; (eexists _, _; split; [reflexivity|]; split; [|eauto];
+            intros C; destruct (S1 C) as [Q1 Q2]; split; congruence).
+      + destruct (premark_none _ _ PM) as (id & g & r & -> & B & F).
+        exists (AStop (Err EUndefined)), st. split; auto.
+        pose proof (rel_undef _ _ _ R F) as FT.
+        destruct n as [|n']; simpl in E.
+        * inversion E; subst. split; [discriminate|eauto].
+        * rewrite B, FT, (P g) in E. unfold latef in E. rewrite F in E. inversion E; subst. split; [auto|eauto].
+  Qed.
+
+  Lemma eval_body_ex : forall n, exP n -> forall forms st en v rS oS, Inv st -> Rel st ft -> Pol st late ->
+    eval_bodyS (evalL late n ft) en (out st) forms v = (rS, oS) ->
+    exists rM st', eval_body (evalM n) st en forms v = (rM, st') /\ ex1 rS oS rM st'.
+  Proof.
+    intros n IH. induction forms as [|f rest IHf]; simpl; intros st en v rS oS I R P E.
+    - inversion E; subst. eexists _, _. split; [reflexivity|apply ex1_same].
+    - destruct (evalL late n ft en (out st) f) as [r1 o1] eqn:E1.
+      destruct (IH st en f r1 o1 I R P E1) as (rM & st1 & EM & [S1 S2]). rewrite EM.
+      pose proof (evalM_good n _ _ _ _ _ EM) as [T1 I1].
+      destruct r1 as [w|er|].
+      + destruct (S1 eq_refl) as [-> O1]. rewrite <- O1 in E.
+        apply (IHf st1 en w rS oS (I1 I) (same_tabs_rel _ _ _ T1 R) (same_tabs_pol _ _ _ T1 P) E).
+      + inversion E; subst. pose proof (S2 eq_refl). destruct rM; [discriminate| |];
+          (eexists _, _; split; [reflexivity|]; split; auto).
+      + inversion E; subst. pose proof (S2 eq_refl). destruct rM; [discriminate| |];
+          (eexists _, _; split; [reflexivity|]; split; auto).
+  Qed.
+
+  Lemma eval_if_ex : forall n, exP n -> forall args st en rS oS, Inv st -> Rel st ft -> Pol st late ->
+    eval_ifS (evalL late n ft) en (out st) args = (rS, oS) ->
+    exists rM st', eval_if (evalM n) st en args = (rM, st') /\ ex1 rS oS rM st'.
+  Proof.
+    intros n IH args st en rS oS I R P. unfold eval_ifS, eval_if.
+    assert (K : forall c a b,
+      match evalL late n ft en (out st) c with
+      | (Val v, o1) => match (if truthy (norm v) then Some a else b) with
+                       | None => (Val VNil, o1)
+                       | Some x => match evalL late n ft en o1 x with (Val w, o2) => (Val (norm w), o2) | r => r end end
+      | r => r end = (rS, oS) ->
+      exists rM st',
+      match evalM n st en c with
+      | (Val v, st1) =>
+          match (if truthy (norm v) then Some a else b) with
+          | None => (Val VNil, apply_def st1 (deferred st c))
+          | Some x => match evalM n st1 en x with
+                      | (Val w, st2) => (Val (norm w), apply_def (apply_def st2 (deferred st c)) (deferred st1 x))
+                      | r => r end
+          end
+      | r => r end = (rM, st') /\ ex1 rS oS rM st').
+    { intros c a b. destruct (evalL late n ft en (out st) c) as [r1 o1] eqn:E1.
+      destruct (IH st en c r1 o1 I R P E1) as (rM & st1 & EM & [S1 S2]). rewrite EM.
+      pose proof (evalM_good n _ _ _ _ _ EM) as [T1 I1].
+      destruct r1 as [v|er|].
+      - destruct (S1 eq_refl) as [-> O1].
+        destruct (if truthy (norm v) then Some a else b) as [x|].
+        + rewrite <- O1. destruct (evalL late n ft en (out st1) x) as [r2 o2] eqn:E2.
+          destruct (IH st1 en x r2 o2 (I1 I) (same_tabs_rel _ _ _ T1 R) (same_tabs_pol _ _ _ T1 P) E2) as (rM2 & st2 & EM2 & [Q1 Q2]).
+          rewrite EM2. destruct r2 as [w2|er|].
+          * destruct (Q1 eq_refl) as [-> O2]. intros E; inversion E; subst.
+            eexists _, _. split; [reflexivity|]. split; [|discriminate].
+            intros _. rewrite !apply_def_out. auto.
+          * intros E; inversion E; subst. pose proof (Q2 eq_refl). destruct rM2; [discriminate| |];
+              (eexists _, _; split; [reflexivity|]; split; auto).
+          * intros E; inversion E; subst. pose proof (Q2 eq_refl). destruct rM2; [discriminate| |];
+              (eexists _, _; split; [reflexivity|]; split; auto).
+        + intros E; inversion E; subst. eexists _, _. split; [reflexivity|].
+          split; auto. intros _. rewrite apply_def_out. auto.
+      - intros E; inversion E; subst. pose proof (S2 eq_refl). destruct rM; [discriminate| |];
+          (eexists _, _; split; [reflexivity|]; split; auto).
+      - intros E; inversion E; subst. pose proof (S2 eq_refl). destruct rM; [discriminate| |];
+          (eexists _, _; split; [reflexivity|]; split; auto). }
+    destruct args as [|c [|a [|b [|? ?]]]];
+      try (intros E; inversion E; subst; eexists _, _; split; [reflexivity|apply ex1_same]).
+    - apply K.
+    - apply K.
+  Qed.
+
+  Lemma eval_seq_ex : forall n, exP n -> forall forms st en v rS oS, Inv st -> Rel st ft -> Pol st late ->
+    eval_seqS (evalL late n ft) en (out st) forms v = (rS, oS) ->
+    exists rM st', eval_seq (evalM n) st en forms v = (rM, st') /\ ex1 rS oS rM st'.
+  Proof.
+    intros n IH. induction forms as [|f rest IHf]; simpl; intros st en v rS oS I R P E.
+    - inversion E; subst. eexists _, _. split; [reflexivity|apply ex1_same].
+    - destruct (premark st f) as [st0|] eqn:PM.
+      + pose proof (premark_good _ _ _ PM) as [T0 I0]. pose proof (premark_out _ _ _ PM) as O0.
+        rewrite <- O0 in E.
+        destruct (evalL late n ft en (out st0) f) as [r1 o1] eqn:E1.
+        destruct (IH st0 en f r1 o1 (I0 I) (same_tabs_rel _ _ _ T0 R) (same_tabs_pol _ _ _ T0 P) E1) as (rM & st1 & EM & [S1 S2]). rewrite EM.
+        pose proof (evalM_good n _ _ _ _ _ EM) as [T1 I1].
+        destruct r1 as [w|er|].
+        * destruct (S1 eq_refl) as [-> O1]. rewrite <- O1 in E.
+          apply (IHf st1 en (norm w) rS oS (I1 (I0 I)) (same_tabs_rel _ _ _ T1 (same_tabs_rel _ _ _ T0 R))
+                   (same_tabs_pol _ _ _ T1 (same_tabs_pol _ _ _ T0 P)) E).
+        * inversion E; subst. pose proof (S2 eq_refl). destruct rM; [discriminate| |];
+            (eexists _, _; split; [reflexivity|]; split; auto).
+        * inversion E; subst. pose proof (S2 eq_refl). destruct rM; [discriminate| |];
+            (eexists _, _; split; [reflexivity|]; split; auto).
+      + destruct (premark_none _ _ PM) as (id & g & r & -> & B & F).
+        exists (Err EUndefined), st. split; auto.
+        pose proof (rel_undef _ _ _ R F) as FT.
+        destruct n as [|n']; simpl in E.
+        * inversion E; subst. split; [discriminate|auto].
+        * rewrite B, FT, (P g) in E. unfold latef in E. rewrite F in E. inversion E; subst. split; auto.
+  Qed.
+  Lemma eval_progn_ex : forall n, exP n -> forall forms st en v ds rS oS, Inv st -> Rel st ft -> Pol st late ->
+    eval_seqS (evalL late n ft) en (out st) forms v = (rS, oS) ->
+    exists rM st', eval_progn (evalM n) st en forms v ds = (rM, st') /\ ex1 rS oS rM st'.
+  Proof.
+    intros n IH. induction forms as [|f rest IHf]; simpl; intros st en v ds rS oS I R P E.
+    - inversion E; subst. eexists _, _. split; [reflexivity|]. split; [|auto].
+      intros _. split; [reflexivity|apply fold_apply_def_out].
+    - destruct (evalL late n ft en (out st) f) as [r1 o1] eqn:E1.
+      destruct (IH st en f r1 o1 I R P E1) as (rM & st1 & EM & [S1 S2]). rewrite EM.
+      pose proof (evalM_good n _ _ _ _ _ EM) as [T1 I1].
+      destruct r1 as [w|er|].
+      + destruct (S1 eq_refl) as [-> O1]. rewrite <- O1 in E.
+        apply (IHf st1 en (norm w) _ rS oS (I1 I) (same_tabs_rel _ _ _ T1 R) (same_tabs_pol _ _ _ T1 P) E).
+      + inversion E; subst. pose proof (S2 eq_refl). destruct rM; [discriminate| |];
+          (eexists _, _; split; [reflexivity|]; split; auto).
+      + inversion E; subst. pose proof (S2 eq_refl). destruct rM; [discriminate| |];
+          (eexists _, _; split; [reflexivity|]; split; auto).
+  Qed.
+  Lemma eval_case_ex : forall n, exP n -> forall args st en rS oS, Inv st -> Rel st ft -> Pol st late ->
+    eval_caseS (evalL late n ft) en (out st) args = (rS, oS) ->
+    exists rM st', eval_case (evalM n) st en args = (rM, st') /\ ex1 rS oS rM st'.
+  Proof.
+    intros n IH args st en rS oS I R P. unfold eval_caseS, eval_case.
+    destruct args as [|k clauses]; [intros E; inversion E; subst; eexists _, _; split; [reflexivity|apply ex1_same]|].
+    destruct (eval_argsS (evalL late n ft) en (out st) [k]) as [aS o1] eqn:EA.
+    destruct (eval_args_ex n IH [k] st en aS o1 I R P EA) as (aM & st1 & EM & A). rewrite EM.
+    pose proof (eval_args_good _ (evalM_good n) _ _ _ _ _ EM) as [T1 I1].
+    destruct aS as [vs|r].
+    - destruct A as [-> O1].
+      destruct vs as [|key [|? ?]]; try (intros E; inversion E; subst; eexists _, _; split; [reflexivity|]; split; auto; fail).
+      destruct (select_clause key clauses) as [forms|];
+        [|intros E; inversion E; subst; eexists _, _; split; [reflexivity|]; split; auto].
+      rewrite <- O1. intros E.
+      apply (eval_seq_ex n IH _ st1 _ _ _ _ (I1 I) (same_tabs_rel _ _ _ T1 R) (same_tabs_pol _ _ _ T1 P) E).
+    - intros E; inversion E; subst. destruct A as [A1 (r' & -> & NV)].
+      eexists _, _. split; [reflexivity|]. split; auto.
+      intros C. destruct (A1 C) as [Q1 Q2]. split; congruence.
+  Qed.
+
+  Theorem evalM_ex : forall n, exP n.
+  Proof.
+    induction n as [|n IH]; intros st en e rS oS I R P E; simpl in E.
+    - inversion E; subst. exists OutOfFuel, st. split; auto. apply ex1_same.
+    - destruct e as [z|x|id xs].
+      + inversion E; subst. eexists _, _. split; [reflexivity|apply ex1_same].
+      + inversion E; subst. eexists _, _. split; [reflexivity|apply ex1_same].
+      + destruct xs as [|[z|f|i ys] args];
+          try (inversion E; subst; eexists _, _; split; [reflexivity|apply ex1_same]).
+        simpl. destruct (builtin_of f) as [b|] eqn:B.
+        * rewrite (wrapper_builtin st id f b B).
+          assert (STRICT : b <> BIf ->
+            match eval_argsS (evalL late n ft) en (out st) args with
+            | (AVals vs, o1) => apply_bi b vs o1
+            | (AStop r, o1) => (r, o1) end = (rS, oS) ->
+            exists rM st',
+              match eval_args (evalM n) st en args with
+              | (AVals vs, st1) => let (r, o) := apply_bi b vs (out st1) in (r, set_out st1 o)
+              | (AStop r, st1) => (r, st1) end = (rM, st') /\ ex1 rS oS rM st').
+          { intros _ E'. destruct (eval_argsS (evalL late n ft) en (out st) args) as [aS o1] eqn:EA.
+            destruct (eval_args_ex n IH args st en aS o1 I R P EA) as (aM & st1 & EM & A). rewrite EM.
+            destruct aS as [vs|r].
+            - destruct A as [-> O1]. rewrite O1, E'. eexists _, _. split; [reflexivity|]. split; auto.
+            - inversion E'; subst. destruct A as [A1 (r' & -> & NV)].
+              eexists _, _. split; [reflexivity|]. split; auto.
+              intros C. destruct (A1 C) as [Q1 Q2]. split; congruence. }
+          destruct b; try (apply STRICT; [discriminate|exact E]).
+          -- apply (eval_progn_ex n IH); auto.
+          -- apply (eval_if_ex n IH); auto.
+          -- apply (eval_case_ex n IH); auto.
+        * pose proof (wrapper_user st id f I B) as W.
+          destruct (slookup f ft) as [[[ps forms] clos]|] eqn:FT.
+          -- (* the name has a definition *)
+             pose proof (R f) as D. rewrite FT in D. unfold def_of in D.
+             destruct (slookup f (funcs st)) as [s|] eqn:F; [|discriminate].
+             destruct (hget st s) as [l|] eqn:H; [|discriminate].
+             destruct (l_place l) eqn:PL; [discriminate|]. inversion D; subst ps forms clos.
+             destruct (wrapper st id f) as [[b|g a]|]; [contradiction| |discriminate].
+             destruct W as [(s' & l' & F' & Ha & Hs)|(OR & _)]; [|congruence]. inversion F'; subst s'.
+             rewrite H in Hs. inversion Hs; subst l'.
+             destruct (eval_argsS (evalL late n ft) en (out st) args) as [aS o1] eqn:EA.
+             destruct (eval_args_ex n IH args st en aS o1 I R P EA) as (aM & st1 & EM & A). rewrite EM.
+             pose proof (eval_args_good _ (evalM_good n) _ _ _ _ _ EM) as [T1 I1].
+             destruct aS as [vs|r].
+             ++ destruct A as [-> O1]. unfold call_lambda.
+                assert (Ha1 : nth_error (heap st1) a = Some l) by (destruct T1 as [-> _]; exact Ha).
+                rewrite Ha1, PL.
+                destruct (arity_err (List.length (l_params l)) (List.length vs)).
+                ** inversion E; subst. eexists _, _. split; [reflexivity|]. split; auto.
+                ** rewrite <- O1 in E.
+                   apply (eval_body_ex n IH _ st1 _ _ _ _ (I1 I) (same_tabs_rel _ _ _ T1 R) (same_tabs_pol _ _ _ T1 P) E).
+             ++ inversion E; subst. destruct A as [A1 (r' & -> & NV)].
+                eexists _, _. split; [reflexivity|]. split; auto.
+                intros C. destruct (A1 C) as [Q1 Q2]. split; congruence.
+          -- (* no definition.  A placeholder exists (late f): M calls it - arguments first, then
+                undefined-function; no placeholder: the conversion of the list fails at once *)
+             rewrite (P f) in E. unfold latef in E.
+             destruct (wrapper st id f) as [[b|g a]|]; [contradiction| |].
+             ++ destruct W as [(s & l & F & Ha & Hs)|(OR & _)]; [|congruence]. rewrite F in E.
+                pose proof (R f) as D. rewrite FT in D. unfold def_of in D. rewrite F, Hs in D.
+                destruct (l_place l) eqn:PL; [|discriminate].
+                destruct (eval_argsS (evalL late n ft) en (out st) args) as [aS o1] eqn:EA.
+                destruct (eval_args_ex n IH args st en aS o1 I R P EA) as (aM & st1 & EM & A). rewrite EM.
+                pose proof (eval_args_good _ (evalM_good n) _ _ _ _ _ EM) as [T1 I1].
+                destruct aS as [vs|r].
+                ** destruct A as [-> O1]. unfold call_lambda.
+                   assert (Ha1 : nth_error (heap st1) a = Some l) by (destruct T1 as [-> _]; exact Ha).
+                   rewrite Ha1, PL. inversion E; subst. eexists _, _. split; [reflexivity|]. split; auto.
+                ** inversion E; subst. destruct A as [A1 (r' & -> & NV)].
+                   eexists _, _. split; [reflexivity|]. split; auto.
+                   intros C. destruct (A1 C) as [Q1 Q2]. split; congruence.
+             ++ rewrite W in E. inversion E; subst. eexists _, _. split; [reflexivity|apply ex1_same].
+  Qed.
+End Exact.
+
+(* in property terms: exact agreement, undefined-function outcomes included *)
+Theorem evalM_exact : forall n st ft en e rS oS, Inv st -> Rel st ft ->
+  evalL (latef st) n ft en (out st) e = (rS, oS) -> binding rS = true ->
+  exists st', evalM n st en e = (rS, st') /\ out st' = oS.
+Proof.
+  intros n st ft en e rS oS I R E B.
+  destruct (evalM_ex (latef st) ft n st en e rS oS I R (Pol_latef st) E) as (rM & st' & EM & [S1 _]).
+  destruct (S1 B) as [-> O]. eauto.
+Qed.
+
+(* ---- histories ------------------------------------------------------------------------------------------ *)
+(* the policies along M's run are `pols_run` (Spec.v) *)
+Lemma gdef_eval_ex : forall late n st ft gv always nm init rS oS gvS, Inv st -> Rel st ft ->
+  (gdef_evaluates gv always nm = true -> Pol st late) ->
+  gdef_evalS (evalL late n ft) gv (out st) always nm init = (rS, oS, gvS) ->
+  exists rM st', gdef_eval (evalM n) st gv always nm init = (rM, st', gvS) /\ ex1 rS oS rM st' /\ good st st'.
+Proof.
+  intros late n st ft gv always nm init rS oS gvS I R HP. unfold gdef_evalS, gdef_eval, gdef_evaluates in *.
+  destruct always.
+  - specialize (HP eq_refl). destruct (premark st init) as [st1|] eqn:PM.
+    + pose proof (premark_good _ _ _ PM) as G1. destruct G1 as [T1 I1]. pose proof (premark_out _ _ _ PM) as O1.
+      rewrite <- O1. destruct (evalL late n ft gv (out st1) init) as [r1 o1] eqn:E1.
+      destruct (evalM_ex late ft n st1 gv init r1 o1 (I1 I) (same_tabs_rel _ _ _ T1 R) (same_tabs_pol _ _ _ T1 HP) E1)
+        as (rM & st2 & EM & [S1 S2]).
+      rewrite EM. pose proof (evalM_good n _ _ _ _ _ EM) as G2.
+      assert (G : good st st2) by (eapply good_trans; [split; [exact T1|exact I1]|exact G2]).
+      destruct r1 as [v|er|].
+      * destruct (S1 eq_refl) as [-> O2]. intros E; inversion E; subst. eexists _, _. split; [reflexivity|].
+        split; [split; [auto|discriminate]|exact G].
+      * intros E; inversion E; subst. pose proof (S2 eq_refl). destruct rM; [discriminate| |];
+          (eexists _, _; split; [reflexivity|]; split; [split; auto|exact G]).
+      * intros E; inversion E; subst. pose proof (S2 eq_refl). destruct rM; [discriminate| |];
+          (eexists _, _; split; [reflexivity|]; split; [split; auto|exact G]).
+    + destruct (premark_none _ _ PM) as (id & g & r & -> & B & F).
+      pose proof (rel_undef _ _ _ R F) as FT. intros E.
+      exists (Err EUndefined), st.
+      destruct n as [|n']; simpl in E.
+      * inversion E; subst. split; [reflexivity|]. split; [split; [discriminate|auto]|apply good_refl].
+      * rewrite B, FT, (HP g) in E. unfold latef in E. rewrite F in E. inversion E; subst.
+        split; [reflexivity|]. split; [split; auto|apply good_refl].
+  - simpl in HP. destruct (slookup (gkey nm) gv).
+    + intros E; inversion E; subst. eexists _, _. split; [reflexivity|]. split; [apply ex1_same|apply good_refl].
+    + specialize (HP eq_refl). destruct (evalL late n ft gv (out st) init) as [r1 o1] eqn:E1.
+      destruct (evalM_ex late ft n st gv init r1 o1 I R HP E1) as (rM & st1 & EM & [S1 S2]).
+      rewrite EM. pose proof (evalM_good n _ _ _ _ _ EM) as G1.
+      destruct r1 as [v|er|].
+      * destruct (S1 eq_refl) as [-> O1]. intros E; inversion E; subst. eexists _, _. split; [reflexivity|].
+        split; [split; [intros _; rewrite apply_def_out; auto|discriminate]|].
+        eapply good_trans; [exact G1|]. apply apply_def_good. apply G1.
+      * intros E; inversion E; subst. pose proof (S2 eq_refl). destruct rM; [discriminate| |];
+          (eexists _, _; split; [reflexivity|]; split; [split; auto|exact G1]).
+      * intros E; inversion E; subst. pose proof (S2 eq_refl). destruct rM; [discriminate| |];
+          (eexists _, _; split; [reflexivity|]; split; [split; auto|exact G1]).
+Qed.
+Lemma pol_gdef_split : forall st gv always nm X,
+  (gdef_evaluates gv always nm = true -> Pol st (pol_hd (pol_gdef st gv always nm ++ X))) /\
+  pols_after_gdef gv always nm (pol_gdef st gv always nm ++ X) = X.
+Proof.
+  intros. unfold pol_gdef, pols_after_gdef. destruct (gdef_evaluates gv always nm); simpl; split; auto.
+  - intros _. apply Pol_latef.
+  - discriminate.
+Qed.
+
+Lemma run_forms_ex : forall n fs st ft gv v rest rS oS ft' gv' pols', Inv st -> Rel st ft ->
+  run_formsL n ft gv (out st) fs v (pols_forms n st gv fs ++ rest) = (rS, oS, ft', gv', pols') ->
+  exists rM st', run_forms n st gv fs v = (rM, st', gv') /\ ex1 rS oS rM st' /\ Inv st' /\ Rel st' ft' /\ pols' = rest.
+Proof.
+  intros n. induction fs as [|t r IH]; simpl; intros st ft gv v rest rS oS ft' gv' pols' I R E.
+  - inversion E; subst. eexists _, _. split; [reflexivity|]. split; [apply ex1_same|auto].
+  - destruct t as [e|nm]; [|eapply IH; eauto].
+    destruct (parse_defun e) as [[[nm ps] body]|] eqn:PD.
+    + destruct (defunM_step st ft nm ps body [] I R) as (I' & R' & O'). rewrite <- O' in E. eapply IH; eauto.
+    + destruct (parse_letdefun e) as [[[[clos nm] ps] body]|] eqn:PLD.
+      { destruct (defunM_step st ft nm ps body clos I R) as (I' & R' & O'). rewrite <- O' in E. eapply IH; eauto. }
+      destruct (parse_gdef e) as [[[always nm] init]|] eqn:PG.
+      * rewrite <- app_assoc in E.
+        destruct (gdef_eval (evalM n) st gv always nm init) as [[rM st1] gvM] eqn:EM.
+        match type of E with context [pol_gdef st gv always nm ++ ?X] =>
+          destruct (pol_gdef_split st gv always nm X) as [HP HA]; rewrite HA in E;
+          destruct (gdef_evalS (evalL (pol_hd (pol_gdef st gv always nm ++ X)) n ft) gv (out st) always nm init)
+            as [[r1 o1] gv1] eqn:E1;
+          destruct (gdef_eval_ex _ n st ft gv always nm init r1 o1 gv1 I R HP E1) as (rM' & st1' & EM' & [S1 S2] & [T1 I1])
+        end.
+        rewrite EM in EM'. inversion EM'; subst rM' st1' gvM.
+        destruct r1 as [w|er|].
+        -- destruct (S1 eq_refl) as [-> O1]. rewrite <- O1 in E. eapply IH; eauto. eapply same_tabs_rel; eauto.
+        -- pose proof (S2 eq_refl) as NV. destruct rM as [?|?|]; [discriminate| |]; simpl in E; inversion E; subst;
+             (eexists _, _; split; [reflexivity|]; split; [split; auto|split; [auto|split; [eapply same_tabs_rel; eauto|reflexivity]]]).
+        -- pose proof (S2 eq_refl) as NV. destruct rM as [?|?|]; [discriminate| |]; simpl in E; inversion E; subst;
+             (eexists _, _; split; [reflexivity|]; split; [split; auto|split; [auto|split; [eapply same_tabs_rel; eauto|reflexivity]]]).
+      * simpl in E.
+        destruct (evalL (latef st) n ft gv (out st) e) as [r1 o1] eqn:E1.
+        destruct (evalM_ex (latef st) ft n st gv e r1 o1 I R (Pol_latef st) E1) as (rM & st1 & EM & [S1 S2]).
+        rewrite EM in *. pose proof (evalM_good n _ _ _ _ _ EM) as [T1 I1].
+        destruct r1 as [w|er|].
+        -- destruct (S1 eq_refl) as [-> O1]. rewrite <- O1 in E. eapply IH; eauto. eapply same_tabs_rel; eauto.
+        -- pose proof (S2 eq_refl) as NV. destruct rM as [?|?|]; [discriminate| |]; simpl in E; inversion E; subst;
+             (eexists _, _; split; [reflexivity|]; split; [split; auto|split; [auto|split; [eapply same_tabs_rel; eauto|reflexivity]]]).
+        -- pose proof (S2 eq_refl) as NV. destruct rM as [?|?|]; [discriminate| |]; simpl in E; inversion E; subst;
+             (eexists _, _; split; [reflexivity|]; split; [split; auto|split; [auto|split; [eapply same_tabs_rel; eauto|reflexivity]]]).
+Qed.
+
+Lemma compile_defs_ex : forall n fs st ft gv rest xS oS ft' gv' fs' pols', Inv st -> Rel st ft ->
+  compile_defsL n ft gv (out st) fs (pols_compile n st gv fs ++ rest) = (xS, oS, ft', gv', fs', pols') ->
+  exists xM st', compile_defs n st gv fs = (xM, st', gv', fs') /\ ex1 xS oS xM st' /\ Inv st' /\ Rel st' ft' /\ pols' = rest.
+Proof.
+  intros n. induction fs as [|t r IH]; simpl; intros st ft gv rest xS oS ft' gv' fs' pols' I R E.
+  - inversion E; subst. eexists _, _. split; [reflexivity|]. split; [apply ex1_same|auto].
+  - assert (KEEP : forall t0,
+       (let '(x, o', ft0, gv0, r', p') := compile_defsL n ft gv (out st) r (pols_compile n st gv r ++ rest) in
+        (x, o', ft0, gv0, t0 :: r', p')) = (xS, oS, ft', gv', fs', pols') ->
+       exists xM st', (let '(x, st0, gv0, r') := compile_defs n st gv r in (x, st0, gv0, t0 :: r')) = (xM, st', gv', fs') /\
+                      ex1 xS oS xM st' /\ Inv st' /\ Rel st' ft' /\ pols' = rest).
+    { intros t0 E'.
+      destruct (compile_defsL n ft gv (out st) r (pols_compile n st gv r ++ rest)) as [[[[[x o'] ft0] gv0] r'] p'] eqn:ER.
+      inversion E'; subst. destruct (IH _ _ _ _ _ _ _ _ _ _ I R ER) as (xM & st' & EM & S & I' & R' & PE).
+      rewrite EM. eauto 10. }
+    destruct t as [e|nm]; [|apply KEEP; exact E].
+    destruct (parse_defun e) as [[[nm ps] body]|] eqn:PD.
+    + destruct (defunM_step st ft nm ps body [] I R) as (I' & R' & O'). rewrite <- O' in E.
+      destruct (compile_defsL n ((nm, (ps, body, [])) :: ft) gv (out (defunM st nm ps body [])) r
+                  (pols_compile n (defunM st nm ps body []) gv r ++ rest)) as [[[[[x o'] ft0] gv0] r'] p'] eqn:ER.
+      inversion E; subst. destruct (IH _ _ _ _ _ _ _ _ _ _ I' R' ER) as (xM & st' & EM & S & I'' & R'' & PE).
+      rewrite EM. eauto 10.
+    + destruct (parse_letdefun e) as [[[[clos nm] ps] body]|] eqn:PLD; [apply KEEP; exact E|].
+      destruct (parse_gdef e) as [[[always nm] init]|] eqn:PG; [|apply KEEP; exact E].
+      rewrite <- app_assoc in E.
+      destruct (gdef_eval (evalM n) st gv always nm init) as [[rM st1] gvM] eqn:EM.
+      match type of E with context [pol_gdef st gv always nm ++ ?X] =>
+        destruct (pol_gdef_split st gv always nm X) as [HP HA]; rewrite HA in E;
+        destruct (gdef_evalS (evalL (pol_hd (pol_gdef st gv always nm ++ X)) n ft) gv (out st) always nm init)
+          as [[r1 o1] gv1] eqn:E1;
+        destruct (gdef_eval_ex _ n st ft gv always nm init r1 o1 gv1 I R HP E1) as (rM' & st1' & EM' & [S1 S2] & [T1 I1])
+      end.
+      rewrite EM in EM'. inversion EM'; subst rM' st1' gvM.
+      destruct r1 as [w|er|].
+      * destruct (S1 eq_refl) as [-> O1]. rewrite <- O1 in E.
+        destruct (compile_defsL n ft gv1 (out st1) r (pols_compile n st1 gv1 r ++ rest)) as [[[[[x o'] ft0] gv0] r'] p'] eqn:ER.
+        inversion E; subst.
+        destruct (IH _ _ _ _ _ _ _ _ _ _ (I1 I) (same_tabs_rel _ _ _ T1 R) ER) as (xM & st' & EM2 & S & I'' & R'' & PE).
+        rewrite EM2. eauto 10.
+      * pose proof (S2 eq_refl) as NV. destruct rM as [?|?|]; [discriminate| |]; simpl in E; inversion E; subst;
+          (eexists _, _; split; [reflexivity|]; split; [split; auto|split; [auto|split; [eapply same_tabs_rel; eauto|reflexivity]]]).
+      * pose proof (S2 eq_refl) as NV. destruct rM as [?|?|]; [discriminate| |]; simpl in E; inversion E; subst;
+          (eexists _, _; split; [reflexivity|]; split; [split; auto|split; [auto|split; [eapply same_tabs_rel; eauto|reflexivity]]]).
+Qed.
+
+Definition oex (oS oM : obs) : Prop :=
+  (binding (fst oS) = true -> oM = oS) /\ (is_val (fst oS) = false -> is_val (fst oM) = false).
+
+Lemma step_ex : forall n m s o rest s' obS pols', HInv m s -> fmak_ok m o ->
+  stepL n s o (pols_step n m o ++ rest) = (s', obS, pols') ->
+  HInv (fst (stepM n m o)) s' /\ pols' = rest /\
+  match obS, snd (stepM n m o) with
+  | Some a, Some b => oex a b
+  | None, None => True
+  | _, _ => False
+  end.
+Proof.
+  intros n m s o rest s' obS pols' H NF E.
+  destruct H as (I & R & CE & GE).
+  destruct o as [cid forms|cid|cid|fk]; simpl in *;
+    [| | |inversion E; subst; destruct (fmakM_step (ms m) (sft s) fk NF I R) as (I' & R' & _); simpl;
+          split; [unfold HInv; simpl; auto|auto]].
+  - inversion E; subst. simpl. split; [unfold HInv; simpl; split; [auto|split; [auto|split; [congruence|auto]]]|auto].
+  - rewrite <- CE, <- GE in E. destruct (nlookup cid (codes m)) as [fs|].
+    + pose proof (good_set_out (ms m) []) as [T0 I0].
+      destruct (compile_defsL n (sft s) (mgv m) [] fs (pols_compile n (set_out (ms m) []) (mgv m) fs ++ rest))
+        as [[[[[xS oS] ft'] gv'] fs'] pl] eqn:EL.
+      destruct (compile_defs_ex n fs (set_out (ms m) []) (sft s) (mgv m) rest xS oS ft' gv' fs' pl (I0 I)
+                  (same_tabs_rel _ _ _ T0 R) EL) as (xM & st1 & EM & [S1 S2] & I1 & R1 & PE).
+      rewrite EM. inversion E; subst. destruct xM as [w|er|].
+      * destruct (cgood_rel _ _ _ (compile_rest_cgood fs' st1) I1 R1) as [I' R'].
+        pose proof (cg_out _ _ (compile_rest_cgood fs' st1 I1)) as OC.
+        simpl. split; [unfold HInv; simpl; split; [auto|split; [auto|split; [congruence|auto]]]|].
+        split; [reflexivity|]. split; simpl.
+        -- intros B. destruct (S1 B) as [<- <-]. rewrite OC. reflexivity.
+        -- intros NV. destruct xS; [discriminate| |]; specialize (S2 eq_refl); discriminate.
+      * simpl. split; [unfold HInv; simpl; split; [auto|split; [auto|split; [congruence|auto]]]|].
+        split; [reflexivity|]. split; simpl; auto. intros B. destruct (S1 B) as [<- <-]. reflexivity.
+      * simpl. split; [unfold HInv; simpl; split; [auto|split; [auto|split; [congruence|auto]]]|].
+        split; [reflexivity|]. split; simpl; auto. intros B. destruct (S1 B) as [<- <-]. reflexivity.
+    + inversion E; subst. simpl. split; [unfold HInv; auto|auto].
+  - rewrite <- CE, <- GE in E.
+    destruct (nlookup cid (codes m)) as [fs|].
+    + pose proof (good_set_out (ms m) []) as [T0 I0].
+      destruct (run_formsL n (sft s) (mgv m) [] fs VNil (pols_forms n (set_out (ms m) []) (mgv m) fs ++ rest))
+        as [[[[rS oS] ft'] gv'] pl] eqn:EL.
+      destruct (run_forms_ex n fs (set_out (ms m) []) (sft s) (mgv m) VNil rest rS oS ft' gv' pl (I0 I)
+                  (same_tabs_rel _ _ _ T0 R) EL) as (rM & st' & EM & [S1 S2] & I' & R' & PE).
+      rewrite EM. inversion E; subst. simpl.
+      split; [unfold HInv; simpl; auto|]. split; [reflexivity|].
+      split; simpl; auto. intros B. destruct (S1 B) as [-> ->]. reflexivity.
+    + inversion E; subst. simpl. split; [unfold HInv; auto|auto].
+Qed.
+
+Theorem history_exact_from : forall n ops m s rest, HInv m s -> fmak_clean n m ops = true ->
+  Forall2 oex (runL n s ops (pols_run n m ops ++ rest)) (runM n m ops).
+Proof.
+  intros n. induction ops as [|o r IH]; simpl; intros m s rest H NF; [constructor|].
+  apply andb_true_iff in NF. destruct NF as [N1 N2].
+  assert (N1' : fmak_ok m o) by (destruct o; simpl; auto).
+  rewrite <- app_assoc.
+  destruct (stepL n s o (pols_step n m o ++ pols_run n (fst (stepM n m o)) r ++ rest)) as [[s' obS] pols'] eqn:EL.
+  destruct (step_ex n m s o _ s' obS pols' H N1' EL) as (H' & -> & OB).
+  destruct (stepM n m o) as [m' obM]. simpl in *.
+  specialize (IH m' s' rest H' N2).
+  destruct obS as [a|], obM as [b|]; try contradiction; simpl; auto.
+Qed.
+(* every history of {read, Code.Compile, Code.Eval}: under the lookup times M's run uses (each allowed by the
+   language) the specification's outcomes are exactly M's - results, conditions (undefined-function included)
+   and emitted values *)
+Theorem history_exact : forall n ops, fmak_clean n minit ops = true ->
+  Forall2 oex (runL n sinit ops (pols_run n minit ops)) (runM n minit ops).
+Proof.
+  intros n ops NF. rewrite <- (app_nil_r (pols_run n minit ops)). apply history_exact_from; auto. apply HInv_init.
+Qed.
+Corollary history_exact_exists : forall n ops, fmak_clean n minit ops = true ->
+  exists pols, Forall2 oex (runL n sinit ops pols) (runM n minit ops).
+Proof. intros n ops NF. exists (pols_run n minit ops). apply history_exact; auto. Qed.
+End Late.
+
+End Flag.
 End FM.
 
 Theorem history_refines_fmak : forall n ops, Forall2 Proofs.osim (runS n sinit ops) (runM n minit ops).
-Proof. exact FM.history_refines. Qed.
+Proof. exact (FM.history_refines true eq_refl). Qed.
+
+(* the weaker invariant is implied by the invariant of Proofs.v (for either flag), holds initially, and the
+   state-level theorems hold over it: evaluation refines S, evaluation / defun / fmakunbound keep it *)
+Lemma Inv_weaker : forall orph st, Proofs.Inv st -> FM.Inv orph st.
+Proof.
+  intros orph st [a b c d]. constructor; auto.
+  - intros id g x N. left. exact (b _ _ _ N).
+  - intros f cc L. destruct (c _ _ L) as [[s S1] (l & H & N)]. exists l. repeat split; auto. intros X. congruence.
+Qed.
+Lemma evalM_sim_fmak : forall ft n st en e rS oS,
+  FM.Inv true st -> Proofs.Rel st ft -> evalS n ft en (out st) e = (rS, oS) ->
+  exists rM st', evalM n st en e = (rM, st') /\
+    (comparable rS = true -> rM = rS /\ out st' = oS) /\ (is_val rS = false -> is_val rM = false).
+Proof. exact (FM.evalM_sim true). Qed.
+Lemma evalM_good_fmak : forall n st en e r st', evalM n st en e = (r, st') ->
+  (heap st' = heap st /\ lambdas st' = lambdas st /\ funcs st' = funcs st) /\ (FM.Inv true st -> FM.Inv true st').
+Proof. exact (FM.evalM_good true). Qed.
+Lemma defunM_step_fmak : forall st ft name ps body clos, FM.Inv true st -> Proofs.Rel st ft ->
+  FM.Inv true (defunM st name ps body clos) /\ Proofs.Rel (defunM st name ps body clos) ((name, (ps, body, clos)) :: ft) /\
+  out (defunM st name ps body clos) = out st.
+Proof. exact (FM.defunM_step true). Qed.
+Lemma fmakM_step_fmak : forall st ft name, FM.Inv true st -> Proofs.Rel st ft ->
+  FM.Inv true (fmakM st name) /\ Proofs.Rel (fmakM st name) (sremove name ft) /\ out (fmakM st name) = out st.
+Proof. exact (fun st ft name => FM.fmakM_step true st ft name (or_introl eq_refl)). Qed.
+
+(* exactness for the histories in which no name is fmakunbound while a slot holds a compiled call of it *)
+Theorem history_exact_fmak : forall n ops, fmak_clean n minit ops = true ->
+  Forall2 ProofsLate.oex (runL n sinit ops (pols_run n minit ops)) (runM n minit ops).
+Proof. exact (FM.history_exact false eq_refl). Qed.
+Theorem history_exact_exists_fmak : forall n ops, fmak_clean n minit ops = true ->
+  exists pols, Forall2 ProofsLate.oex (runL n sinit ops pols) (runM n minit ops).
+Proof. exact (FM.history_exact_exists false eq_refl). Qed.
+Lemma no_fmak_clean : forall n ops m, no_fmak ops = true -> fmak_clean n m ops = true.
+Proof.
+  intros n. induction ops as [|o r IH]; simpl; intros m NF; [reflexivity|].
+  destruct o; simpl; auto; discriminate.
+Qed.
 
 (* ---- exactness (9b) and fmakunbound ------------------------------------------------------------------------
    The exactness theorems of ProofsLate.v compare M with runL, S with ONE lookup time per undefined name and per
@@ -1180,3 +1743,15 @@ Proof.
   - apply oex_third in H. destruct H as [A _]. specialize (A eq_refl). discriminate.
   - destruct (p0 "h"); apply oex_third in H; destruct H as [A _]; specialize (A eq_refl); discriminate.
 Qed.
+
+(* the hypothesis of history_exact_fmak: weaker than no_fmak (no_fmak_clean), satisfiable with OFmak (a function that
+   was only ever called from top-level list forms is fmakunbound, then called and redefined), and it excludes both
+   witnesses above *)
+Definition fx_ops3 : list op :=
+  [OLoad 0 [Proofs.dfn 1 "h" 2 ["x"] [SList 3 [SSym "progn"; SInt 1]]; SList 4 [SSym "h"; SInt 7]]; ORun 0; OFmak "h";
+   OLoad 1 [SList 5 [SSym "h"; SList 6 [SSym "emit"; SInt 5]]]; ORun 1; ORun 0; ORun 1].
+Theorem fmak_clean_demo :
+  fmak_clean 10 minit fx_ops3 = true /\ no_fmak fx_ops3 = false /\
+  runM 10 minit fx_ops3 = [(Val (VInt 1%Z), []); (Err EUndefined, []); (Val (VInt 1%Z), []); (Val (VInt 1%Z), [VInt 5%Z])] /\
+  fmak_clean 10 minit fx_ops1 = false /\ fmak_clean 10 minit fx_ops2 = false.
+Proof. vm_compute. auto 10. Qed.
